@@ -389,6 +389,42 @@ def rule_as_binary(ctx):
         else:
             raise AnalysisError('early `return \'\'` of BitString.asBinary under an unrecognised condition')
     defs = dict((norm(a.targets[0]), a.value) for a in walk_own(f.node) if isinstance(a, ast.Assign) and len(a.targets) == 1)
+    if len(rets) == 1 and isinstance(rets[0].value, ast.Call) and isinstance(rets[0].value.func, ast.Attribute) and \
+            rets[0].value.func.attr in ('zfill', 'rjust') and rets[0].value.args:
+        # `<digits>.zfill(<width>)`: the text has max(len(digits), width) characters
+        call = rets[0].value
+        if call.func.attr == 'rjust' and not (len(call.args) == 2 and isinstance(call.args[1], ast.Constant) and call.args[1].value == '0'):
+            raise AnalysisError('fill character of BitString.asBinary not recognised')
+        dsrc = defs.get(norm(call.func.value), call.func.value)
+        dtxt = norm(dsrc)
+        if dtxt == 'bin(self._value)[2:]':
+            ndig = lambda bl: max(1, bl)
+        elif dtxt == "bin(self._value)[2:].lstrip('0')":
+            ndig = lambda bl: bl
+        else:
+            raise AnalysisError('digits `%s` of BitString.asBinary not recognised' % dtxt)
+        width = _subst(call.args[0], {'len(self._value)': '__L'})
+        bad = None
+        try:
+            for L in range(0, ctx.scale(8, 13)):
+                if L == 0 and skip_empty:
+                    continue
+                for v in range(0, 2 ** L):
+                    bl = v.bit_length()
+                    total = max(ndig(bl), intexpr.ev(width, {'__L': L, '__B': bl}))
+                    if total != L:
+                        bad = (L, v, total)
+                        break
+                if bad:
+                    break
+        except intexpr.NotPure as x:
+            raise AnalysisError('width `%s` of BitString.asBinary is not a pure integer expression of the length: %s' % (norm(call.args[0]), x))
+        ctx.ob('W.binstr', f, 'padding + digits == bit length for every value', bad is None,
+               'a %d-bit string with value %d is written with %d character(s) (`%s`): its text form, and with it the native form, '
+               'reads back as a string of another length' % (bad + (norm(call)[:60],)) if bad else
+               'checked for lengths 0..%d (`%s`)' % (ctx.scale(8, 13) - 1, norm(call)[:60]), node=rets[0])
+        ctx.ob('W.binstr', f, 'text form is zeros followed by the digits of the value', True, norm(call), nontrivial=False)
+        return
     if len(rets) != 1 or not isinstance(rets[0].value, ast.BinOp) or not isinstance(rets[0].value.op, ast.Add):
         raise AnalysisError('text form of BitString.asBinary not recognised: %s' % [norm(r.value) for r in rets])
     pad, digits = rets[0].value.left, rets[0].value.right
